@@ -12,11 +12,17 @@ While ONE public call (`estimate`, `personalize`, `simulate`) runs on a real mod
     State.precompute_all         pc:<sid>
     State.clear                  cl:<sid>
     State.auto_fork_type = …     m:<sid>:<0|1>            (the `auto_fork` context manager assigns twice)
-    State.to_device / (un)track  x:<sid>:<what>           not in the C01 vocabulary: always counted as a write
+    State.to_device / (un)track  x:<sid>:<what>           not in the C01 vocabulary: always counted as a write; `clone` hands its
+                                                           own set of tracked names to the clone, so (un)track is reported for
+                                                           every state holding that very set
     model._state = <State>       b:<sid>                  (`model.state = …` goes through it)
     model.<attribute> = …        a:<name>
     in-place tensor write        k:0:<node>               a tensor held by state 0 when the call started has another
                                                            `_version` afterwards (`add_`, `x[mask] = v`, `copy_`, …)
+
+Also here: `InputWatch` (writes to the caller's AlgorithmSettings object and to `settings.parameters` and its nested
+dictionaries while the call runs; `_version` counters of the tensors of a caller-owned Dataset), `compress` (run-length form
+of a history, expanded again by the driver), fingerprints of the model's other attributes.
 
 State identities: 0 = `model.state` as it was when the call started, k > 0 = the k-th State object seen afterwards
 (every one of them must be born in a recorded `clone`; anything else is reported as `new:<sid>`).
